@@ -430,7 +430,7 @@ func runFrame(fr *Frame) {
 		case targetPanic:
 		default:
 			// engine bug or Go runtime error inside the engine: convert to an abort with location
-			panic(abort(fmt.Sprintf("engine: %v in %s [%s]", r, fr.fn, shortStack())))
+			panic(abort(fmt.Sprintf("engine: %v in %s [%s] called from %s", r, fr.fn, shortStack(), callChain(fr.caller))))
 		}
 		fr.panicking = true
 		fr.panic = r
